@@ -75,6 +75,8 @@ func (pr *printer) mk(ts []TypeSpec, i int) string {
 		return fmt.Sprintf("ext.MkX%d", ts[i].X)
 	case TBasic:
 		return "rt.Mk_" + BasicNames[ts[i].X]
+	case TBytes:
+		return "rt.Mk_bytes"
 	case TParam:
 		return fmt.Sprintf("G%d", i) // conversion to the type parameter
 	}
@@ -87,6 +89,8 @@ func (pr *printer) un(ts []TypeSpec, i int) string {
 		return fmt.Sprintf("ext.UnX%d", ts[i].X)
 	case TBasic:
 		return "rt.Un_" + BasicNames[ts[i].X]
+	case TBytes:
+		return "rt.Un_bytes"
 	case TParam:
 		return "uint64"
 	}
@@ -115,15 +119,35 @@ func (pr *printer) typeStr(ts []TypeSpec, i int) string {
 		return BasicNames[ts[i].X]
 	case TParam:
 		return fmt.Sprintf("G%d", i)
+	case TAnon:
+		return fmt.Sprintf("struct {\n\tV uint64\n\tF%d bool\n}", i)
+	case TBytes:
+		return "[]byte"
 	}
 	panic("type kind")
+}
+
+// typeStrIn is the spelling a consumer of flow type i uses in its parameter
+// list: the same type, not necessarily the same text.
+func (pr *printer) typeStrIn(ts []TypeSpec, i int) string {
+	switch ts[i].Kind {
+	case TBytes:
+		return "[]uint8"
+	case TAnon:
+		// same struct, written on one line
+		return fmt.Sprintf("struct {\n\tV  uint64\n\tF%d bool\n}", i)
+	}
+	return pr.typeStr(ts, i)
 }
 
 func (pr *printer) declType(ts []TypeSpec, i int) {
 	n := pr.tname(i)
 	w := func(f string, a ...any) { fmt.Fprintf(&pr.b, f, a...) }
 	switch ts[i].Kind {
-	case TOther, TBasic:
+	case TOther, TBasic, TBytes:
+		return
+	case TAnon:
+		w("func mk%s(x uint64) %s { return %s{V: x} }\nfunc un%s(v %s) uint64 { return v.V }\n", n, pr.typeStr(ts, i), pr.typeStr(ts, i), n, pr.typeStr(ts, i))
 		return
 	case TParam:
 		w("type %s uint64\n", n) // the type argument the program is instantiated with
@@ -172,7 +196,7 @@ func (pr *printer) flowTaskFunc(f *FlowP, t *TaskP) string {
 		params = append(params, "ctx context.Context")
 	}
 	for k, in := range t.In {
-		params = append(params, fmt.Sprintf("a%d %s", k, pr.typeStr(f.Types, in)))
+		params = append(params, fmt.Sprintf("a%d %s", k, pr.typeStrIn(f.Types, in)))
 		args = append(args, fmt.Sprintf("%s(a%d)", pr.un(f.Types, in), k))
 	}
 	var rets, retv []string
@@ -302,7 +326,7 @@ func (pr *printer) predFunc(f *FlowP, t *TaskP) string {
 		ctxArg = "ctx"
 	}
 	for k, in := range t.Pred.In {
-		params = append(params, fmt.Sprintf("a%d %s", k, pr.typeStr(f.Types, in)))
+		params = append(params, fmt.Sprintf("a%d %s", k, pr.typeStrIn(f.Types, in)))
 		args = append(args, fmt.Sprintf("%s(a%d)", pr.un(f.Types, in), k))
 	}
 	c := fmt.Sprintf("h.Pred(%d, %s", t.ID, ctxArg)
